@@ -1,14 +1,14 @@
 #!/bin/bash
 # Runs every thorough tier on /repo's working tree, one after the other, and keeps a copy of each evidence file
-# under evidence/thorough/ (evidence/<id>.json is rewritten by the next quick run). Log: thorough.log in /verif.
+# under evidence/thorough/ (evidence/<id>.json is rewritten by the next quick run). Log: evidence/thorough/thorough.log.
 cd /verif || exit 2
 mkdir -p evidence/thorough
-: > thorough.log
+: > evidence/thorough/thorough.log
 rc=0
 for p in C01 C09 C12 C04 C18 C19; do
-  echo "== $p thorough  $(date -u +%H:%M:%S)" >> thorough.log
-  bin/check $p thorough >> thorough.log 2>&1; r=$?
-  echo "== $p exit=$r  $(date -u +%H:%M:%S)" >> thorough.log
+  echo "== $p thorough  $(date -u +%H:%M:%S)" >> evidence/thorough/thorough.log
+  bin/check $p thorough >> evidence/thorough/thorough.log 2>&1; r=$?
+  echo "== $p exit=$r  $(date -u +%H:%M:%S)" >> evidence/thorough/thorough.log
   [ $r -ne 0 ] && rc=$r
   cp evidence/$p.json evidence/thorough/$p.json 2>/dev/null
 done
